@@ -287,11 +287,14 @@ func starLoop(r *hx.Rand, s site, n int, rmin, rmax float64) *s2.Loop {
 
 var vertexCounts = []int{3, 4, 4, 5, 6, 8, 12, 16, 17, 18, 24, 40}
 
+// noHoles is set in the child that builds a compact world (see buildWorld)
+var noHoles = false
+
 func starPolygon(r *hx.Rand, centre s2.Point, size float64) *s2.Polygon {
 	s := newSite(centre)
 	n := vertexCounts[r.Intn(len(vertexCounts))]
 	loops := []*s2.Loop{starLoop(r, s, n, 0.5*size, size)}
-	if r.Chance(1, 3) {
+	if r.Chance(1, 3) && !noHoles {
 		loops = append(loops, starLoop(r, s, vertexCounts[r.Intn(6)], 0.1*size, 0.4*size))
 	}
 	return s2.PolygonFromLoops(loops)
@@ -405,6 +408,17 @@ var scaleNames = []string{"tiny", "small", "medium", "huge"}
 func buildWorld(c *cx, forceCompact bool) *world {
 	r := c.Rand
 	scale := r.Intn(4)
+	minSize := 0.0
+	if forceCompact {
+		// the compact encoding stores locations as E7 integers (about 1 cm): geometry below that collapses
+		// (areas lose their polygons), so compact worlds get features of at least ~6 m in sites of >= 64 m
+		scale = 1 + r.Intn(3)
+		minSize = 1e-6
+		// Areas given as polygons (not as closed paths) do not survive the compact encoding: loops are dropped or
+		// an area comes back with Len() == 0 (observed; that is the compact codec's business, C01/C11). The search
+		// index is the subject here, so compact worlds get one-loop areas that refer to a closed path, as OSM's do.
+		noHoles = true
+	}
 	R := logUniform(r, scaleBounds[scale][0], scaleBounds[scale][1])
 	centre, where := siteCentre(r, R)
 	s := newSite(centre)
@@ -431,6 +445,7 @@ func buildWorld(c *cx, forceCompact bool) *world {
 			if size < 1e-9 {
 				size = 1e-9
 			}
+			size = math.Max(size, minSize)
 			pts := make([]s2.Point, k)
 			theta := 2 * math.Pi * unit(r)
 			for j := range pts {
@@ -440,7 +455,7 @@ func buildWorld(c *cx, forceCompact bool) *world {
 			feats = append(feats, newPath(r, next, pts))
 		default:
 			np := 1
-			if r.Chance(1, 3) {
+			if r.Chance(1, 3) && !forceCompact {
 				np = 2 + r.Intn(2)
 			}
 			ps := make([]*s2.Polygon, np)
@@ -452,9 +467,23 @@ func buildWorld(c *cx, forceCompact bool) *world {
 				if size < 2e-9 {
 					size = 2e-9
 				}
+				size = math.Max(size, minSize)
 				ps[j] = starPolygon(r, place(), size)
 			}
-			feats = append(feats, newArea(r, next, ps))
+			if forceCompact {
+				// as OSM does: the area refers to a closed path (anti-clockwise, first vertex repeated)
+				vs := ps[0].Loop(0).Vertices()
+				ring := append(append([]s2.Point{}, vs...), vs[0])
+				pf := newPath(r, next+1000, ring)
+				pf.f.RemoveTag("#k")
+				a := ingest.NewAreaFeature(1)
+				a.AreaID = b6.AreaID{Namespace: ns, Value: next}
+				a.SetPathIDs(0, []b6.FeatureID{pf.id})
+				tagged(r, a)
+				feats = append(feats, pf, feat{id: a.FeatureID(), kind: 'a', f: a, pts: vs})
+			} else {
+				feats = append(feats, newArea(r, next, ps))
+			}
 		}
 		next++
 	}
